@@ -3,14 +3,14 @@
  "property": "C16",
  "standin": "B-seed",
  "bound": "fixed list of 39 (quick) / 48 (thorough) set / frozenset / dict / Enum values, each rendered by code_repr and _value_to_code in separate interpreters with PYTHONHASHSEED 0..3 (quick) / 0..7 (thorough) x {black, black import blocked, format_command=cat}; 6 extra construction orders per top-level set; dict insertion order (F15) not varied",
- "input": "(frozenset({\"p\", \"q\", \"r\", \"s\"}),)",
- "detail": "code_repr text differs between hash seeds: PYTHONHASHSEED=[0]: \"(frozenset({'p', 'q', 's', 'r'}),)\"; PYTHONHASHSEED=[1]: \"(frozenset({'r', 's', 'q', 'p'}),)\"; PYTHONHASHSEED=[2]: \"(frozenset({'p', 's', 'q', 'r'}),)\"; PYTHONHASHSEED=[3]: \"(frozenset({'r', 'p', 'q', 's'}),)\""
+ "input": "{frozenset({c}) for c in \"abcdefgh\"}",
+ "detail": "[incomparable elements without TypeError: frozenset / frozenset] code_repr text differs between hash seeds: PYTHONHASHSEED=[0]: \"{frozenset({'c'}), frozenset({'e'}), frozenset({'f'}), frozenset({'b'}), frozenset({'g'}), frozenset({'d'}), frozenset({'h'}), frozenset({'a'})}\"; PYTHONHASHSEED=[1]: \"{frozenset({'g'}), frozenset({'d'}), frozenset({'a'}), frozenset({'b'}), frozenset({'c'}), frozenset({'h'}), frozenset({'e'}), frozenset({'f'})}\"; PYTHONHASHSEED=[2]: \"{frozenset({'e'}), frozenset({'h'}), frozenset({'f'}), frozenset({'c'}), frozenset({'g'}), frozenset({'b'}), frozenset({'d'}), frozenset({'a'})}\"; PYTHONHASHSEED=[3]: \"{frozenset({'f'}), frozenset({'b'}), frozenset({'g'}), frozenset({'h'}), frozenset({'d'}), frozenset({'a'}), frozenset({'e'}), frozenset({'c'})}\""
 }
 """
 
 # run with: /verif/.venv/bin/python <this file>      (inline_snapshot is the editable install of /repo)
 import os, subprocess, sys
-EXPR = '(frozenset({"p", "q", "r", "s"}),)'
+EXPR = '{frozenset({c}) for c in "abcdefgh"}'
 CHILD = 'from enum import Enum, Flag, IntEnum\nclass Color(Enum):\n    RED = "r"\n    GREEN = "g"\n    BLUE = "b"\nclass Size(IntEnum):\n    S = 1\n    M = 2\n    L = 3\nclass Perm(Flag):\n    R = 4\n    W = 2\n    X = 1\n' + """
 import sys
 from inline_snapshot._code_repr import code_repr
